@@ -386,6 +386,9 @@ def oracle_prov(tr, qcap):
             if not f or f[2] != 'done' or f[3] != FAIL or f[4] != 3:
                 return 'consumer-result', f'unknown operation: result handle {f}'
             continue
+        if mode == 'queued' and rst == WAIT and not any(final(x) for x in sts):
+            return 'wait-never-finished', (f'transaction {rid} ({KINDS[kind]}, queued) was answered Wait; the worker has drained and the '
+                                           f'reported states are {[ST[x] for x in sts]} - no final state ever follows')
         if ex is None:
             return 'handler-not-run', f'request {k}: accepted but the handler never ran'
         raised = ex[0] == 'raise'
@@ -723,6 +726,9 @@ def run(ctx):
                      'the caller keeps the result handle alive (the manager holds a weak reference)',
                      'reports of one transaction reach a subscriber in the order they were sent (one worker thread, synchronous '
                      'delivery); only the position of the response among them varies',
+                     'a request that finds the queue full is refused, never answered Wait and forgotten (translator probe of '
+                     'handle_operation_request on a full queue -> sco_full_queue_loses_wait, part of gen_ok; the stepping harness counts '
+                     'real enqueues with queue.unfinished_tasks, not responses); '
                      'a request is refused with a SOAP fault when the worker queue holds sco_queue_cap operations for the whole '
                      'put timeout (C09_refused_only_when_full); the harness lets that timeout elapse at once',
                      'one model step = one critical section under _transactions_lock: checked by the translator (every buffer / '
